@@ -23,6 +23,10 @@ structure FState where
   rhs : Array (List Int) := #[]
   bs : Nat := 1
   mode : Bool := false
+  -- a target/source tree over the same particles: what each side stores, and the targets' results
+  storedS : Array (List Nat) := #[]
+  storedT : Array (List Nat) := #[]
+  rhsT : Array (List Int) := #[]
 deriving Inhabited
 
 structure DState where
@@ -350,6 +354,60 @@ def step (d : DState) (line : String) : DState × List String :=
     let ps := (List.range stored.length).map fun p =>
       s!"P {p} {leafOf p} " ++ " ".intercalate ((stored.getD p []).map hexOf)
     (d, (lf ++ ps).map ("s" ++ ·) ++ (lf ++ ps).map ("t" ++ ·))
+  | "tsm" :: sub :: ts =>
+    -- target/source tree over the same particle set on both sides (construction harness): independent histories of the two sides
+    if !d.f.active || d.f.nRhs == 0 then (d, []) else
+    let f := d.f
+    let sideLines := fun (pre : String) (t : Tree) (stored : Array (List Nat)) =>
+      let lf := t.pgroups.zipIdx.flatMap fun (g, gi) => g.map fun l =>
+        s!"{pre}LF {gi} {l.idx} {joinNat (decode d.D (d.H - 1) l.idx)} : {joinNat (sortNat l.parts)}"
+      let leafOf := fun p => ((t.stored.find? (·.2 == p)).getD (0, 0)).1
+      let ps := (List.range stored.size).map fun p =>
+        s!"{pre}P {p} {leafOf p} " ++ " ".intercalate ((stored.getD p []).map hexOf)
+      lf ++ ps
+    match sub with
+    | "build" =>
+      let leafIdx := f.input.map fun bits => f.leafIdxOf d.D d.H f.real64 bits
+      let stored := (f.input.map fun bits => bits.map (realToData f.real64 f.data64)).toArray
+      let bs := kv ts "bs" 1; let mode := kv ts "mode" 0 == 1
+      let t := Tree.build d.D d.H bs mode leafIdx
+      let zeros : Array (List Int) := Array.replicate f.input.length (List.replicate f.nRhs (0 : Int))
+      ({ d with treeS := t, treeT := t, f := { f with storedS := stored, storedT := stored, rhsT := zeros, bs := bs, mode := mode } }, [])
+    | "move" =>
+      match ts with
+      | side :: p :: cs =>
+        let p := p.toNat!
+        let nb := cs.map ofHex
+        if side == "s" then
+          let old := f.storedS.getD p []
+          ({ d with f := { f with storedS := f.storedS.setIfInBounds p (nb ++ old.drop nb.length) } }, [])
+        else
+          let old := f.storedT.getD p []
+          ({ d with f := { f with storedT := f.storedT.setIfInBounds p (nb ++ old.drop nb.length) } }, [])
+      | _ => (d, ["bad-op tsm move"])
+    | "rebuild" =>
+      -- TbfTreeTsm::rebuild: each side is rebuilt from the positions it stores
+      let li := fun (stored : Array (List Nat)) => stored.toList.map fun bits => f.leafIdxOf d.D d.H f.data64 bits
+      ({ d with treeS := Tree.build d.D d.H f.bs f.mode (li f.storedS), treeT := Tree.build d.D d.H f.bs f.mode (li f.storedT) }, [])
+    | "exec" =>
+      let cs := executeTsm d.treeS d.treeT d.periodic 63 (if d.periodic then 1 else 2)
+      let st := applyCalls (fun _ => 1) (d.H - 1) d.treeT.partsOf d.treeS.partsOf {} cs
+      let rhs := f.rhsT.mapIdx fun p r => match r with
+        | [] => []
+        | r0 :: rest => (r0 + (st.r p : Int)) :: rest
+      ({ d with f := { f with rhsT := rhs } }, ["EX"])
+    | "dump" =>
+      (d, sideLines "s" d.treeS f.storedS ++ sideLines "t" d.treeT f.storedT ++
+        ((List.range f.rhsT.size).map fun p => " ".intercalate (["tR", toString p] ++ (f.rhsT.getD p []).map toString)))
+    | "export" =>
+      let w := if f.data64 then "64" else "32"
+      let ds := d.treeS.exportBy [] (fun p => f.storedS.getD p []) f.storedS.size
+      let dt := d.treeT.exportBy [] (fun p => f.storedT.getD p []) f.storedT.size
+      let rt := d.treeT.exportBy [] (fun p => f.rhsT.getD p []) f.rhsT.size
+      (d, (ds.zipIdx.map fun (v, p) => " ".intercalate (["XDs", toString p, w] ++ v.map hexOf)) ++
+          (dt.zipIdx.map fun (v, p) => " ".intercalate (["XDt", toString p, w] ++ v.map hexOf)) ++
+          (rt.zipIdx.map fun (v, p) => " ".intercalate (["XRt", toString p] ++ v.map toString)))
+    | _ => (d, ["bad-op tsm " ++ sub])
   | ["dump", "groups"] =>
     (d, (List.range d.tree.H).flatMap fun l =>
       (d.tree.level l).zipIdx.map fun (g, gi) => s!"S G {l} {gi} {firstOf g} {lastOf g} {g.length} : {joinNat g}")
